@@ -257,15 +257,18 @@ class Ctx:
             out[fam] = (tf, r["runs"])
         return out
 
-    def filtered(self, master, kinds, name):
-        """per-specification view of a master trace: keeps the listed event kinds, nothing is rewritten or reordered"""
+    def filtered(self, master, kinds, name, primary_only=True):
+        """per-specification view of a master trace: keeps the listed event kinds, nothing is rewritten or reordered.
+        primary_only: events of secondary connections (server connections created by replayed/duplicated client
+        Initials, internal id >= 1) are left to the specifications that are about them (C11)"""
         dst = os.path.join(self.out, name)
         keep = set(kinds)
         n = 0
+        sec = re.compile(r'"conn":[1-9]')
         with open(dst, "w") as o:
             for line in open(master):
                 m = re.search(r'"ev":"([a-z_]+)"', line)
-                if m and m.group(1) in keep:
+                if m and m.group(1) in keep and not (primary_only and sec.search(line)):
                     o.write(line)
                     n += 1
         return dst, n
@@ -328,6 +331,9 @@ class Ctx:
 
     def finish(self):
         self.cov["distinct_nontrivial"] += len(self._distinct)
+        if self.cov["states"] == 0:
+            # no bounded model was explored by this check: report trace-validation counts only
+            del self.cov["states"], self.cov["transitions"]
         if not self.cov["samples"]:
             self.cov["samples"].append("no sample recorded")
         ev = {"property_id": self.pid, "tier": self.tier, "seed": self.seed, "level": "model_checking",
